@@ -45,7 +45,7 @@ def cfgs(tier):
             n = 300
         i += 1
         out.append({"id": i, "algo": "Zooming", "kind": kind, "K": Kk, "D": D, "box": box, "n": n, "T": n, "prm": prm, "pattern": rnd.choice(["g01", "peak", "bern", "gneg", "const"]), "seed": rnd.randrange(1 << 30),
-                    "queries": sorted(rnd.sample(range(n), 3)) if rep % 3 == 0 else [], "midq": sorted(rnd.sample(range(n), 3)) if rep % 4 == 1 else []})
+                    "queries": sorted(rnd.sample(range(n), 3)) if rep % 3 == 0 else [], "midq": sorted(rnd.sample(range(n), 3)) if rep % 4 == 1 else [], "rtype": [None, "f32", "f64", "i64", "int", None][rep % 6]})
     return out
 
 
